@@ -191,6 +191,13 @@ func (s *Svc) Gate(ctx context.Context, id int) (int, error) {
 	}
 }
 
+// GateErr blocks like Gate — but does NOT watch its context — and then fails: (id, "late failure <id>").
+func (s *Svc) GateErr(ctx context.Context, id int) (int, error) {
+	s.log(ctx, "GateErr", fmt.Sprint(id))
+	<-s.gate(id)
+	return id, fmt.Errorf("late failure %d", id)
+}
+
 // Bounce alternates direction: depth 0 answers, otherwise it calls the peer's Bounce.
 func (s *Svc) Bounce(ctx context.Context, depth int) (int, error) {
 	s.log(ctx, "Bounce", fmt.Sprint(depth))
@@ -557,6 +564,7 @@ type Remote struct {
 	BadErrVal   func(ctx context.Context, kind int) (int, error)
 	KindErr     func(ctx context.Context, kind int) (int, error)
 	KindErrOnly func(ctx context.Context, kind int) error
+	GateErr     func(ctx context.Context, id int) (int, error)
 	KindClosure func(ctx context.Context, kind int, cb func(ctx context.Context, kind int) (int, error), cbe func(ctx context.Context, kind int) error) (string, error)
 	RetSlice    func(ctx context.Context, kind int) ([]string, error)
 	RetMap      func(ctx context.Context, kind int) (map[string]int, error)
